@@ -12,7 +12,8 @@ REGISTRATION = {
             "NDJSON stream vs non-stream aggregation, the streaming tool-call buffer, every point at which the runner can "
             "fail: scheduler/load, Detokenize of a supplied context, Tokenize in chatPrompt, Completion after k chunks, "
             "Tokenize for the context field after the done chunk), the OpenAI ChatWriter/CompleteWriter and "
-            "api.Client.stream, and of everything the handlers answer before the runner is started (unload/load replies, "
+            "api.Client.stream, of llmServer.Completion's scan loop over the runner's body (so the runner protocol is proved of that "
+            "model, not assumed), of waitForStream (non-streamed pull/push/create replies) and of everything the handlers answer before the runner is started (unload/load replies, "
             "400 raw+context, 400 tools without template support, handleScheduleError's status by class of scheduler error), "
             "for every chunk list: stream concatenation = non-stream reply, re-splitting does not "
             "change the reply, streamed and non-streamed requests fail together with the same error, OpenAI content = "
@@ -22,7 +23,8 @@ REGISTRATION = {
             "gin router with a scripted runner, and the property itself is evaluated on the real responses; the "
             "DoneReason strings, the two fixed error texts and the variant of the tree (which of the repaired behaviours the "
             "real code shows on the findings' own inputs) are regenerated on every run and re-checked by decide; the check "
-            "fails closed when a branch of the model was not exercised on the real code.",
+            "fails closed when a branch of the model was not exercised on the real code. llmServer.Completion is driven against a "
+            "scripted HTTP runner (package llm overlay), waitForStream/streamResponse over scripted progress channels.",
     "design_ref": "DESIGN.md §5 C17",
     "note": COMMON_NOTE + "Modelled, not verified: parseToolCalls is a parameter whose observed values (real function, "
             "every concatenation of consecutive chunks) are supplied per case (tools equivalence is proved under the "
